@@ -53,6 +53,9 @@ func main() {
 		r.Set("size_sweep_in_value_legs", map[string]any{"every_prefixed_text_length_0_to": histSweepText, "every_list_length_0_to": histSweepList})
 	}
 	fn(r, tier == "thorough")
+	if histDecodes > 0 {
+		r.Set("history_decode_operations", map[string]any{"executed": histDecodes, "succeeded": histDecodesOK})
+	}
 	os.Exit(r.Finish())
 }
 
